@@ -1,0 +1,35 @@
+//go:build verif
+// +build verif
+
+package onet
+
+// Read-only accessors for the C06 verification harness (/verif/harness/cmd/c06).
+// Compiled only with the "verif" build tag.
+
+// VerifC06Tree returns the tree stored under id (nil if absent or only requested).
+func (o *Overlay) VerifC06Tree(id TreeID) *Tree {
+	return o.treeStorage.Get(id)
+}
+
+// VerifC06PendingTreeMarshals returns a copy of the tree descriptions that wait for
+// their roster (deprecated roster-then-tree path). It does not take
+// pendingTreeLock, which the code under test may have left held; the harness
+// calls it only while no handler is running.
+func (o *Overlay) VerifC06PendingTreeMarshals() map[RosterID][]*TreeMarshal {
+	out := make(map[RosterID][]*TreeMarshal, len(o.pendingTreeMarshal))
+	for k, v := range o.pendingTreeMarshal {
+		out[k] = append([]*TreeMarshal(nil), v...)
+	}
+	return out
+}
+
+// VerifC06InstanceTokens returns the tokens of the live instances.
+func (o *Overlay) VerifC06InstanceTokens() []*Token {
+	o.instancesLock.Lock()
+	defer o.instancesLock.Unlock()
+	out := make([]*Token, 0, len(o.instances))
+	for _, tni := range o.instances {
+		out = append(out, tni.token)
+	}
+	return out
+}
